@@ -66,6 +66,36 @@ theorem Emits.mono {P Q : Ev → Bool} {m : M α} (h : Emits P m) (hpq : ∀ e, 
   rw [List.all_eq_true] at this ⊢
   exact fun e he => hpq e (this e he)
 
+/-- stepping through a bind: if `m` itself emits only `P`-events but `m >>= f` emits some other
+    event, then `m` returned and the offending event comes from the continuation -/
+theorem Emits.bind_split {P : Ev → Bool} {m : M α} {f : α → M β} (hm : Emits P m) {w : World}
+    (h : ((m >>= f) w).evs.all P = false) :
+    ∃ a e1 w1, m w = ⟨.ok a, e1, w1⟩ ∧ (f a w1).evs.all P = false := by
+  have h0 := hm w
+  cases hr : m w with
+  | mk val e1 w1 =>
+    rw [hr] at h0
+    cases val with
+    | error e => rw [bind_error hr] at h; simp only at h h0; rw [h0] at h; cases h
+    | ok a =>
+      rw [bind_ok hr] at h
+      simp only [List.all_append] at h h0
+      rw [h0] at h
+      exact ⟨a, e1, w1, rfl, by simpa using h⟩
+
+/-- …and the other way round: if the continuation emits only `P`-events, the offending event
+    comes from `m` -/
+theorem Emits.bind_left {P : Ev → Bool} {m : M α} {f : α → M β} (hf : ∀ a, Emits P (f a)) {w : World}
+    (h : ((m >>= f) w).evs.all P = false) : (m w).evs.all P = false := by
+  cases hr : m w with
+  | mk val e1 w1 =>
+    cases val with
+    | error e => rw [bind_error hr] at h; exact h
+    | ok a =>
+      rw [bind_ok hr] at h
+      simp only [List.all_append, hf a w1, Bool.and_true] at h
+      exact h
+
 /-- number of events satisfying `Q` is bounded, in every world -/
 def CountLe (Q : Ev → Bool) (n : Nat) (m : M α) : Prop := ∀ w, (m w).evs.countP Q ≤ n
 
